@@ -116,6 +116,9 @@ BODY = r'''
 pub trait WebBody {
     spec fn received(&self) -> Seq<u8>;
     spec fn ended(&self) -> bool;
+    // A-http-body-02: a body delivers finitely many frames: the (ghost) number still to come.  It is what makes "no busy loop"
+    // (C17) a checkable statement: every turn of the decoding loop must consume buffered bytes or a frame of the body
+    spec fn frames_left(&self) -> nat;
 }
 pub struct PinMut<'a, S> { pub p: &'a mut S }
 pub struct GrpcWebCallProj<'a, B> {
@@ -162,6 +165,9 @@ impl<B: WebBody> GrpcWebCall<B> {
                 Poll::Ready(None) => final(self).inner.received() == old(self).inner.received() && final(self).inner.ended(),
                 _ => final(self).inner.received() == old(self).inner.received() && !final(self).inner.ended(),
             },
+            // A-cut-01b: a frame handed up by poll_decode cost at least one frame of the inner body; nothing else adds frames
+            r matches Poll::Ready(Some(_)) ==> final(self).inner.frames_left() < old(self).inner.frames_left(),
+            final(self).inner.frames_left() <= old(self).inner.frames_left(),
     { unimplemented!() }
 }
 // A-tonic-web-01: decode_trailers_frame parses the HTTP/1 header block of one complete trailers frame; WHAT it returns is
@@ -240,7 +246,7 @@ def build():
     CL = 'old(self).client && old(self).direction == Direction::Decode'
     u.fn(C, 'poll_frame', within='impl<B> Body for GrpcWebCall<B>',
          header='impl<B: WebBody> GrpcWebCall<B> {', close=True,
-         attrs=['#[verifier::exec_allows_no_decreases_clause]', '#[verifier::loop_isolation(false)]'],
+         attrs=['#[verifier::loop_isolation(false)]'],
          sig_edits=[lambda t: t.sub_code('R9', r'Self::Data', 'Bytes'), lambda t: t.sub_code('R9', r'Self::Error', 'Status')],
          body_edits=[
              # the non-client directions are other functions' business (unit webserver): cut here by contract
@@ -262,7 +268,9 @@ def build():
              'trailer_frames(tcons)',
              'old(self).decoded@ + me.inner.received().skip(old(self).inner.received().len() as int) == tcons + me.decoded@',
              '*final(me) == fut_me',
-         ])},
+         ],
+             # no busy loop: every turn consumes a frame of the body, or buffered bytes, or notices the end of the body
+             decreases=['me.inner.frames_left()', 'me.decoded@.len()', '(if me.inner_done { 0int } else { 1int })'])},
          ensures=[
              Clause('C0_invariant_kept', 'final(self).wf() && final(self).client == old(self).client && final(self).direction == old(self).direction'),
              Clause('C1_history_only_grows', 'final(self).inner.received().len() >= old(self).inner.received().len() && final(self).inner.received().take(old(self).inner.received().len() as int) == old(self).inner.received()'),
